@@ -60,7 +60,7 @@ META = {
    technique="TLA+ Producer spec (Subsequence, NoDup, ByteExact, BoundedGap) by TLC over all fault scripts; every TLC-generated fault script (sink dies / restarts) and stall scenarios (sink stops reading, then resets or reads on) replayed into producer.RawSocket against real TCP / UDP sinks, sink logs validated by TLC (ProducerTrace.tla); Kafka at the sarama.AsyncProducer boundary (ProducerKafka.tla, scripted library that encodes late); NSQ with the real go-nsq client against a scripted nsqd (ProducerNSQ.tla); NATS with the real nats.go client against an embedded nats-server (ProducerNATS.tla); ProducerKafkaChan.tla (channel structure: Progress needs the select) with a strict scripted library; a sink that is slow, not dead; a sink configured by name that moves (DNS inside the driver); kafka.segmentio against a scripted in-process broker (ProducerBatch.tla), incl. a partition leader away for seconds",
    text="Model checking over fault sequences; replay of every TLC fault script into the real producer.", note=""),
  "C15": dict(level="model_checking", ref="6/C15",
-   technique="TLA+ Pipeline shutdown actions (NoSendOnClosed, AckedTemplatesSurvive) by TLC; the real run()+shutdown() with a full queue and stalled workers, and with the producer queue full, unread, and the workers busy; end-to-end stop/start cycles of the built binary (idle / steady / burst / sustained traffic, wildcard and IPv4 bind) with signals at seeded offsets; long silence before the signal, megabyte cache files, redefine-only and scope-only cycles with per-exporter definition check after restart, restart under load, a colliding loopback exporter whose predecessor withdraws; relative cache-file names with another working directory, the signal sent twice, statistics served only at their configured address",
+   technique="TLA+ Pipeline shutdown actions (NoSendOnClosed, AckedTemplatesSurvive; liveness ShutdownEnds with the producer queue full and unread, PublishBlocks refuted) by TLC; the real run()+shutdown() with a full queue and stalled workers, and with the producer queue full, unread, and the workers busy; end-to-end stop/start cycles of the built binary (idle / steady / burst / sustained traffic, wildcard and IPv4 bind) with signals at seeded offsets; long silence before the signal, megabyte cache files, redefine-only and scope-only cycles with per-exporter definition check after restart, restart under load, a colliding loopback exporter whose predecessor withdraws; relative cache-file names with another working directory, the signal sent twice, statistics served only at their configured address",
    text="Model checking of the shutdown protocol plus end-to-end exploration.", note=""),
  "C16": dict(level="model_checking", ref="6/C16",
    technique="TLA+ Mirror spec (Faithful for every payload length 0..MaxUDP, both address forms) by TLC; every length replayed through the real worker mirror branch, dispatcher and raw-socket mirror worker and captured on loopback; MirrorDispatch.tla (other-family flood); shutdown with mirroring enabled; the pipeline workers with mirroring on / mirror queue full validated by PipelineTrace.tla; max-udp-size 65535 (Lens), late-on mirroring, a worker waiting for the full mirror queue recognised, 3200 datagrams after the mirror worker has gone, backlog mode with mirror accounting, liveness with the mirror dead (MirrorBlocks refuted), Mirror6.tla (informational); exporter source ports (incl. the mirror's own), collector port number equal to the mirror port",
